@@ -185,14 +185,16 @@ def run(ctx):
             data = (o.raw_data if kind == "analog" else o.data).copy()
             pad = np.concatenate([data[:1], data, data[:1], data[:1]])
             kw = dict(start_index=1, sample_count=len(data), extended_properties=dict(o.extended_properties))
-            if kind == "analog":
-                twin = AnalogWaveform(raw_data=pad, timing=o.timing, scale_mode=o.scale_mode, **kw)
-            else:
-                twin = type(o)(data=pad, **kw)
-                twin.start_frequency, twin.frequency_increment = o.start_frequency, o.frequency_increment
-            if not (twin == o) or twin.capacity == o.capacity and twin.start_index == o.start_index:
-                if not (twin == o):
-                    ctx.violation(what="equal observable state, different slack", type=kind, observed="not equal", required="equal")
+            try:
+                if kind == "analog":
+                    twin = AnalogWaveform(raw_data=pad, timing=o.timing, scale_mode=o.scale_mode, **kw)
+                else:
+                    twin = type(o)(data=pad, **kw)
+                    twin.start_frequency, twin.frequency_increment = o.start_frequency, o.frequency_increment
+            except Exception:  # noqa: BLE001 - an inconsistent original (another property's violation) has no twin
+                twin = None
+            if twin is not None and not (twin == o):
+                ctx.violation(what="equal observable state, different slack", type=kind, observed="not equal", required="equal")
     for r in world.records:
         if r["line"].startswith("wpickle") and r["err"] is not None:
             ctx.violation(what="pickle/deepcopy failed in history", line=r["line"], observed=r["err"], required="a copy")
